@@ -101,8 +101,8 @@ func OrderOps(g *Gen, ac *chain.Actor, name string, ctx sdk.Context) sdk.Msg {
 				continue
 			}
 			if onlyTriggered {
-				pin := a.AmmKeeper.CalculateUSDValue(ctx, o.OrderPrice.BaseDenom, math.NewInt(1))
-				pout := a.AmmKeeper.CalculateUSDValue(ctx, o.OrderPrice.QuoteDenom, math.NewInt(1))
+				pin, _ := chain.USDValueOfOne(a, ctx, o.OrderPrice.BaseDenom)
+				pout, _ := chain.USDValueOfOne(a, ctx, o.OrderPrice.QuoteDenom)
 				if pin.IsZero() || pout.IsZero() {
 					continue
 				}
